@@ -56,6 +56,25 @@ type Loop struct {
 	blocks  map[*ssa.BasicBlock]bool
 	liveOut []ssa.Value
 	parent  *Loop
+	waits   int // 0 unknown, 1 body calls time.Sleep (a retry / waiting loop), 2 it does not
+}
+
+// waiting reports whether the loop body sleeps: such loops are rare and each iteration
+// is expensive (a whole retried operation), so every iteration is checked for feasibility.
+func (l *Loop) waiting() bool {
+	if l.waits == 0 {
+		l.waits = 2
+		for b := range l.blocks {
+			for _, in := range b.Instrs {
+				if c, ok := in.(*ssa.Call); ok {
+					if fn := c.Call.StaticCallee(); fn != nil && fn.String() == "time.Sleep" {
+						l.waits = 1
+					}
+				}
+			}
+		}
+	}
+	return l.waits == 1
 }
 
 type FuncInfo struct {
@@ -675,7 +694,7 @@ func (f *Frame) execLoop(l *Loop) {
 			delete(f.pending, l.header)
 			break
 		}
-		if iter > 0 && iter%m.feasEvery == 0 && !g.IsTrue() && !f.hdrConcrete[l.header] {
+		if ((iter > 0 && iter%m.feasEvery == 0) || l.waiting()) && !g.IsTrue() && !f.hdrConcrete[l.header] {
 			// is another iteration feasible at all?
 			if m.feasible(g) == Unsat {
 				delete(f.pending, l.header)
